@@ -209,11 +209,37 @@ def run(ctx):
     decs = [("BeliefPropagationDecoder", ldpc, quiet(D.BeliefPropagationDecoder, ldpc, bp_iters=5)), ("MinSumLDPCDecoder", ldpc, quiet(D.MinSumLDPCDecoder, ldpc, bp_iters=5)),
             ("WagnerSoftDecisionDecoder", spc, D.WagnerSoftDecisionDecoder(spc)), ("ReedMullerDecoder(soft)", rm, D.ReedMullerDecoder(rm, input_type="soft")),
             ("SuccessiveCancellationDecoder", polar, quiet(D.SuccessiveCancellationDecoder, polar)), ("BeliefPropagationPolarDecoder", polar, quiet(D.BeliefPropagationPolarDecoder, polar))]
+    # longer codes and non-default conventions: frozen ones in polar codes, long parity checks with very small / very large LLRs
+    for N_, k_ in ((16, 8), (32, 12)):
+        for fz in (True, False):
+            for pi_ in (False, True):
+                try:
+                    pe = quiet(E.PolarCodeEncoder, k_, N_, frozen_zeros=fz, polar_i=pi_)
+                    decs.append(("SuccessiveCancellationDecoder(N=%d,frozen_zeros=%s,polar_i=%s)" % (N_, fz, pi_), pe, quiet(D.SuccessiveCancellationDecoder, pe)))
+                    decs.append(("BeliefPropagationPolarDecoder(N=%d,frozen_zeros=%s,polar_i=%s)" % (N_, fz, pi_), pe, quiet(D.BeliefPropagationPolarDecoder, pe)))
+                except Exception as ex:
+                    ctx.note("polar N=%d frozen_zeros=%s polar_i=%s: %s" % (N_, fz, pi_, str(ex)[:60]))
+    for kk in (15, 31, 63):
+        sp_ = E.SingleParityCheckCodeEncoder(kk)
+        decs.append(("WagnerSoftDecisionDecoder(SPC %d)" % (kk + 1), sp_, D.WagnerSoftDecisionDecoder(sp_)))
+    qam = M.QAMModulator(16)
+    qdem = M.QAMDemodulator(16)
     for dname, enc, dec in decs:
         k = int(enc.code_dimension)
-        X = torch.tensor([fec.int_to_bits(m_, k) for m_ in range(1 << k)], dtype=torch.float32)
+        msgs_ = list(range(1 << k)) if k <= 8 else sorted({rng.getrandbits(k) for _ in range(48)} | {0, (1 << k) - 1})
+        X = torch.tensor([fec.int_to_bits(m_, k) for m_ in msgs_], dtype=torch.float32)
         C = quiet(enc, X)
-        for mag in (1e-3 if "Wagner" in dname else 0.5, 1.0, 1e3 if "Wagner" in dname else 30.0):
+        mags = (1e-3 if "Wagner" in dname else 0.5, 1.0, 1e3 if "Wagner" in dname else 30.0) + ((1e-4, 1e-2, 1e4) if "SPC" in dname else ())
+        # unequal per-bit magnitudes as a 16-QAM soft demodulator produces them (noise-free), when the length allows
+        if C.shape[1] % 4 == 0 and ("Successive" in dname or "Polar" in dname or "SPC" in dname):
+            llr_q = qdem(qam(C), noise_var=0.5)
+            out = quiet(dec, llr_q)
+            ctx.count("decoder-polarity", X.shape[0])
+            if not torch.equal(out.float(), X):
+                j = int((out.float() != X).any(dim=1).nonzero()[0])
+                ctx.violation("C15/%s/polarity" % dname.split("(")[0], "%s fed with the noise-free soft output of 16-QAM: message %s comes back as %s" % (dname, [int(v) for v in X[j].tolist()], [int(v) for v in out[j].tolist()]), {"decoder": dname})
+                continue
+        for mag in mags:
             out = quiet(dec, (1 - 2 * C) * mag)
             ctx.count("decoder-polarity", X.shape[0])
             if not torch.equal(out.float(), X):
